@@ -180,3 +180,32 @@ func verifLine8Harness(prop string) {
 }
 
 func verif_C19_line8() { verifLine8Harness("C19") }
+
+// verifLineMixedHarness: a command line of 1..L octets in which ONE position
+// holds an arbitrary octet >= 0x80 (so, next to 7-bit neighbours, always
+// invalid UTF-8) and the others arbitrary 7-bit octets. Invalid UTF-8 changes
+// length under case mapping (one octet becomes U+FFFD, three octets), which
+// is where offset arithmetic on mapped strings goes wrong.
+func verifLineMixedHarness(prop string) {
+	L := nondetInt(1, verifBound(4, 5))
+	line := nondetBytesN(L)
+	p := nondetInt(0, L-1)
+	for i, ch := range line {
+		if i == p {
+			assume(ch >= 0x80)
+		} else {
+			assume(ch != '\n' && ch < 0x80)
+		}
+	}
+	be := &vbackend{}
+	s, lg := verifServer(be)
+	in := append([]byte("EHLO c\r\n"), line...)
+	in = append(in, "\r\nNOOP\r\n"...)
+	vc, _, err := verifServe(s, in, io.EOF)
+	verifObserve(prop+".mixed", line, len(vc.out), lg.lines)
+	verifAssert(err == nil && lg.lines == 0 && verifPanicEvents() == 0, prop+".mixed-no-crash")
+	// lenient count: the echo of control octets is the known echo finding
+	verifAssert(verifNthReplyCode(vc.out, 3) == 250, prop+".mixed-one-reply-then-noop")
+}
+
+func verif_C19_line_mixed() { verifLineMixedHarness("C19") }
